@@ -432,6 +432,9 @@ def run(tier, seed):
         rep.extra["cpp_part"] = "included"
     except ImportError:
         rep.extra["cpp_part"] = "not built yet"
+    from . import cfgrb
+
+    tasks += [(cfgrb.task, (PID, *c, tier, seed)) for c in cfgrb.combos(tier)]
     for d in pmap(_dispatch, tasks):
         rep.merge(d)
     rep.bounds = {"m": "1,2,3 (quick) / 1,2,3,4,8 (thorough)", "k": "symbolic k > 0, and the disabled setting", "inputs": "all real innovations and S^-1 entries (no definiteness needed for the decision equivalence)", "outside": "values within a few ulps of the boundary: the claim is over reals with sqrt(2m) as the code's double; exact-boundary witnesses replay bit-exactly only where sqrt(2m) is exact (m=2,8)"}
@@ -447,6 +450,10 @@ def run(tier, seed):
 def replay(path):
     with open(path) as f:
         r = json.load(f)
+    if r.get("info", {}).get("kind") == "cfgrb":
+        from . import cfgrb
+
+        return cfgrb.replay(PID, r["info"])
     info = r["info"]
     if info["kind"] == "decision":
         i = r["inputs"]
